@@ -254,10 +254,13 @@ def inplace_histories(run, n, owner):
         ks = r.sample(range(1, NK + 1), r.randint(1, 3))
         evs, cs = [], []
 
+        lib_signed = set()
+
         def sign_all():
             for k in ks:
                 if r.random() < 0.5:
                     signing.sign_signable(env, common.PrivateKey.from_bytes(keys.seeds[k]))
+                    lib_signed.add(keys.pub[k])         # the library's own signer was asked to sign the CURRENT payload with k
                 else:
                     env["signatures"][keys.pub[k]] = {"signature": keys.sign(k, twin_canon(env["signed"])).hex()}
         sign_all()
@@ -267,12 +270,13 @@ def inplace_histories(run, n, owner):
             thr = r.randint(1, len(ks))
             out, exc, _ = lib.call(fn, env, auth, thr, gpg=False)      # the SAME object every time
             run.evaluations += 1
-            ev = alpha_call(env, auth, thr, False, out)
+            ev = alpha_call(env, auth, thr, False, out, must=sorted(lib_signed))
             if ev:
                 evs.append(ev)
                 cs.append({"envelope": copy.deepcopy(env), "authorized": auth, "threshold": thr, "gpg": False, "observed": out, "exc": exc,
                            "note": "same envelope object verified repeatedly with in-place edits and re-signing in between"})
             env["signed"]["edit-%d" % step] = r.randint(0, 9)               # in-place edit of the payload
+            lib_signed.clear()
             if r.random() < 0.7:
                 sign_all()                                                 # re-signed: must verify again
         if evs:
